@@ -252,6 +252,9 @@ def make_tracker(cfg):
     if name == 'GroupedNodePopulation':
         return T.GroupedNodePopulation([list(g) for g in t[1]])
     if name == 'NodeClassMatrix':
+        # t[1] = the order of the columns (a permutation of the class indices): the documented class_ordering keyword
+        if len(t) > 1 and t[1] is not None:
+            return T.NodeClassMatrix(class_ordering=[cname(c) for c in t[1]])
         return T.NodeClassMatrix()
     return getattr(T, name)()
 
